@@ -504,6 +504,7 @@ class Multiplexer(wiring.Component):
     """
     def __init__(self, memory_map, *, shadow_overlaps=None):
         self._check_memory_map(memory_map)
+        self._shadow_overlaps = shadow_overlaps
         self._r_shadow = self._Shadow(memory_map.data_width, shadow_overlaps, name="r_shadow")
         self._w_shadow = self._Shadow(memory_map.data_width, shadow_overlaps, name="w_shadow")
         super().__init__({
@@ -529,6 +530,13 @@ class Multiplexer(wiring.Component):
 
     def elaborate(self, platform):
         m = Module()
+
+        # Shadow registers are rebuilt on each elaboration, so that a multiplexer may be elaborated
+        # more than once.
+        self._r_shadow = self._Shadow(self._r_shadow.granularity, self._shadow_overlaps,
+                                      name="r_shadow")
+        self._w_shadow = self._Shadow(self._w_shadow.granularity, self._shadow_overlaps,
+                                      name="w_shadow")
 
         for reg, _, (reg_start, reg_end) in self.bus.memory_map.resources():
             reg_range = range(reg_start, reg_end)
